@@ -56,7 +56,7 @@ impl Property for C04 {
         vec!["programs are only lowered, not coherence/WF checked (the property says: pass lowering)".into(), "lifetime constraints are not compared".into()]
     }
     fn cases_per_shard(&self, tier: Tier) -> u32 {
-        tier.pick(150, 3000)
+        tier.pick(600, 6000)
     }
     fn decode(&self, t: &mut Tape, _tier: Tier) -> PG {
         let cfg = if t.chance(60) { GenCfg::horn_auto() } else { GenCfg::horn() };
@@ -91,8 +91,16 @@ impl Property for C04 {
                 if let Some((class, msg)) = incompatible(&names, &lg.peeled, &a, &b, &mut out) {
                     // classification only: does the reference derivation of this goal go through a coinductive cycle?
                     let st = crate::refsem::solution_sets(&case.program, g, 2, 50).st;
-                    let co = if st.co_cycle { ":coinductive-cycle" } else { "" };
-                    out.fail(format!("{}{}", class, co), format!("{}\n{}goal: {}\nslg: {}\nrec: {}", msg, low.text, lg.text, ra, rb));
+                    let qual = if class.contains("repeated-var") {
+                        ""
+                    } else if st.used_env && case.program.traits.iter().any(|t| t.extra > 0) {
+                        ":env-with-trait-params"
+                    } else if st.co_cycle {
+                        ":coinductive-cycle"
+                    } else {
+                        ""
+                    };
+                    out.fail(format!("{}{}", class, qual), format!("{}\n{}goal: {}\nslg: {}\nrec: {}", msg, low.text, lg.text, ra, rb));
                 }
                 let definite = |s: &Option<Solution<_>>| matches!(s, None | Some(Solution::Unique(_)));
                 if ra != rb {
